@@ -315,6 +315,12 @@ def check_hex(case):
         r = number_result('HEX2DEC("%s")' % want.lower(), env)
         if r != n:
             raise Violation('HEX2DEC("%s") = %r' % (want.lower(), r), r, n)
+        # with a places argument that leaves room for every digit the round trip is the same (what too small a count does is not stated)
+        places = len(want) + (abs(n) % (11 - len(want)))
+        f = 'HEX2DEC(DEC2HEX(%s,%d))' % (N, places)
+        r = number_result(f, env)
+        if r != n:
+            raise Violation('%s = %r for n = %d' % (f, r, n), r, n)
     else:
         must_error('DEC2HEX(%s)' % N, env)
         h = '%X' % abs(n)
